@@ -237,6 +237,18 @@ pub fn run(ctx: &Ctx) -> CheckOutput {
             }));
         }
     }
+    // scale families: a run past 2^16 updates, a window past 2^8
+    for kind in [Kind::Rsi, Kind::MyRsi] {
+        for (label, n, len, at) in scale_families(&|n| n + 1, quick, false, false) {
+            let spec = Spec::un(kind, n, Spec::echo());
+            jobs.push(Box::new(move || {
+                let mut st = Stats::default();
+                let sink = Sink::new();
+                ref_drivers_sparse::<f64>("C05", &spec, &scale_drivers(len, n), &at, &mut st, &sink, &|h, hf, v, out| oracle::<f64>(kind, n, h, hf, v, out));
+                JobOut { stats: st, viols: sink.take(), samples: vec![json!({"explorer":"LONG (sparse oracle)","scalar":"f64","view":spec.name(),"family":label,"steps":len,"judged_steps":at.len(),"drivers":4})] }
+            }));
+        }
+    }
     let o = run_jobs(jobs, ctx.seed);
     CheckOutput {
         stats: o.stats,
